@@ -154,6 +154,7 @@ type Case struct {
 
 type spyHeaders struct {
 	*headers.Repository
+	sess   *session
 	node   *bitcoin_reader.BitcoinNode
 	early  *int64
 	procs  int64
@@ -162,7 +163,7 @@ type spyHeaders struct {
 
 func (s *spyHeaders) ProcessHeader(ctx context.Context, h *wire.BlockHeader) error {
 	atomic.AddInt64(&s.procs, 1)
-	if !s.node.Verified() {
+	if !s.node.Verified() || s.sess.unproven() {
 		atomic.AddInt64(s.early, 1)
 	}
 	return s.Repository.ProcessHeader(ctx, h)
@@ -173,6 +174,7 @@ func (s *spyHeaders) VerifyHeader(ctx context.Context, h *wire.BlockHeader) erro
 }
 
 type spyPeers struct {
+	sess  *session
 	node  *bitcoin_reader.BitcoinNode
 	early *int64
 	adds  int64
@@ -180,7 +182,7 @@ type spyPeers struct {
 
 func (s *spyPeers) Add(ctx context.Context, address string) (bool, error) {
 	atomic.AddInt64(&s.adds, 1)
-	if !s.node.Verified() {
+	if !s.node.Verified() || s.sess.unproven() {
 		atomic.AddInt64(s.early, 1)
 	}
 	return true, nil
@@ -190,6 +192,7 @@ func (s *spyPeers) UpdateTime(ctx context.Context, a string) bool               
 func (s *spyPeers) UpdateScore(ctx context.Context, a string, d int32) bool              { return true }
 
 type spyProc struct {
+	sess  *session
 	node  *bitcoin_reader.BitcoinNode
 	early *int64
 	txs   int64
@@ -197,7 +200,7 @@ type spyProc struct {
 
 func (s *spyProc) ProcessTx(ctx context.Context, tx *wire.MsgTx) (bool, error) {
 	atomic.AddInt64(&s.txs, 1)
-	if !s.node.Verified() {
+	if !s.node.Verified() || s.sess.unproven() {
 		atomic.AddInt64(s.early, 1)
 	}
 	return false, nil
@@ -231,7 +234,13 @@ type session struct {
 	blockCalls int64
 	lastPing   uint64
 	lastBlock  bitcoin.Hash32
+	// what the peer has really done so far, independent of the node's own flags: it may count as
+	// proven only after it sent version and verack and then a reply starting with the BSV header
+	sentVersion, sentVerack bool
+	proved                  int32
 }
+
+func (s *session) unproven() bool { return atomic.LoadInt32(&s.proved) == 0 }
 
 func newSession(c *Case) *session {
 	ctx := coqfmt.QuietContext()
@@ -241,13 +250,13 @@ func newSession(c *Case) *session {
 	repo.DisableDifficulty()
 	repo.InitializeWithGenesis()
 	cfg := bitcoin_reader.DefaultConfig()
-	s.repo = &spyHeaders{Repository: repo, early: &s.early}
-	s.peersSpy = &spyPeers{early: &s.early}
+	s.repo = &spyHeaders{Repository: repo, early: &s.early, sess: s}
+	s.peersSpy = &spyPeers{early: &s.early, sess: s}
 	s.node = bitcoin_reader.NewBitcoinNode("127.0.0.1:8333", "/verif:1/", cfg, s.repo, s.peersSpy)
 	s.repo.node, s.peersSpy.node = s.node, s.node
 	if c.HasTxm {
 		txm := bitcoin_reader.NewTxManager(2 * time.Second)
-		s.proc = &spyProc{node: s.node, early: &s.early}
+		s.proc = &spyProc{node: s.node, early: &s.early, sess: s}
 		txm.SetTxProcessor(s.proc)
 		go txm.Run(ctx)
 		s.node.SetTxManager(txm)
@@ -297,7 +306,7 @@ func (s *session) readLoop() {
 		}
 		if cmd == "getdata" {
 			atomic.AddInt64(&s.getdata, 1)
-			if !s.node.Verified() {
+			if !s.node.Verified() || s.unproven() {
 				atomic.AddInt64(&s.earlyGetdata, 1)
 			}
 		}
@@ -483,13 +492,24 @@ func runSession(c *Case) {
 				}
 				term += " " + coqfmt.Bool(requested)
 			}
-			if s.node.IsReady() && !s.node.Verified() {
+			if s.node.IsReady() && (!s.node.Verified() || s.unproven()) {
 				atomic.AddInt64(&s.early, 1) // selectable (ready) before verified
+			}
+			switch {
+			case st.Cmd == "version":
+				s.sentVersion = true
+			case st.Cmd == "verack":
+				s.sentVerack = true
+			case st.Cmd == "headers" && st.Variant == "bsv" && s.sentVersion && s.sentVerack:
+				atomic.StoreInt32(&s.proved, 1)
 			}
 			if !s.write(b) {
 				ok = false
 			}
 			acts = append(acts, "ARecv ("+term+")")
+		case "settle": // give the handshake thread time to take the message off its channel
+			time.Sleep(60 * time.Millisecond)
+			acts = append(acts, "AHs")
 		case "wait":
 			if s.waitFor(st.Cmd, 1500*time.Millisecond) {
 				// the handshake thread consumed a message to produce this answer
@@ -521,6 +541,9 @@ func runSession(c *Case) {
 		}
 	}
 	verified, ready := s.node.Verified(), s.node.IsReady()
+	if (verified || ready) && s.unproven() {
+		atomic.AddInt64(&s.early, 1) // verified or selectable without a completed handshake and proof
+	}
 	closed := atomic.LoadInt32(&s.closed) == 1
 	if !closed && !pong {
 		// neither answered nor closed: give the connection a moment to close
@@ -560,6 +583,7 @@ func worker(path string) {
 		b, _ := s.bytesFor(Step{Cmd: cmd, Variant: variant, Count: count}, 1)
 		s.write(b)
 	}
+	atomic.StoreInt32(&s.proved, 1) // byte cases do not judge C13
 	if c.Stage != "pre" {
 		send("version", "", 0)
 		s.waitFor("verack", time.Second)
@@ -601,7 +625,11 @@ func genBytes(r *coqfmt.Rand, id int) Case {
 		return b
 	}
 	var raw []byte
-	switch r.Pick(3, 2, 2, 2, 2, 2, 2, 2, 2, 2) {
+	switch r.Pick(3, 2, 2, 2, 2, 2, 2, 2, 2, 2, 4) {
+	case 10: // well-formed frames, unmodified (the node state decides what they meet)
+		for i := 0; i <= r.Intn(3); i++ {
+			raw = append(raw, valid()...)
+		}
 	case 0: // random bytes
 		raw = make([]byte, r.Intn(120))
 		for i := range raw {
@@ -758,6 +786,19 @@ func genSession(r *coqfmt.Rand, id int, profile string) Case {
 		c.Racy = false
 	}
 	noise(r.Intn(4))
+	if profile == "C13" && r.Chance(1, 6) {
+		// half a handshake: only a version or only a verack (possibly repeated), then the proof
+		// of chain and traffic as if verified
+		c.Racy = repeats > 0 // handshake messages in the noise: what the thread consumed is unknown
+		only := []string{"verack", "version"}[r.Intn(2)]
+		for i := 0; i <= r.Intn(3); i++ {
+			c.Ops = append(c.Ops, Step{K: "send", Cmd: only}, Step{K: "settle"})
+		}
+		c.Ops = append(c.Ops, Step{K: "send", Cmd: "headers", Variant: "bsv", Count: 1 + r.Intn(3)}, Step{K: "settle"})
+		c.Ops = append(c.Ops, Step{K: "send", Cmd: "addr", Count: 2}, Step{K: "send", Cmd: "inv", Count: 2},
+			Step{K: "send", Cmd: "headers", Variant: "extend", Count: 2})
+		return c
+	}
 	// handshake, possibly with the verack first and repeated messages
 	if profile != "C14" && r.Chance(1, 4) {
 		c.Ops = append(c.Ops, Step{K: "send", Cmd: "verack"})
